@@ -149,6 +149,13 @@ class Env:
         class MyStr(str):
             pass
 
+        import enum
+
+        class Color(enum.IntEnum):     # members are ints whose repr is not Python source for the value
+            RED = 1
+            BLUE = 2
+
+        self.names["Color"] = Color
         self.names["Hashable"] = cabc.Hashable      # object and Hashable are subclasses of each other
         for c in (HasFly, HasFly2, Shape, Hook, MyInt, MyStr):
             c.__module__ = "vfcase"
@@ -370,7 +377,7 @@ def ann(tx, env, spelling="typing"):
     if h == "CC":
         return env.class_pred(a[0])
     if h == "L":
-        return typing.Literal[tuple(a)]
+        return typing.Literal[tuple(_litvals(a, env))]
     if h == "D" and len(a) > 2 and a[2] == "shared":
         # ["D", bound, pred, "shared"]: the shared condition object, bare when the bound is its own (int)
         c = env.shared_check(a[1])
@@ -422,6 +429,10 @@ def value(vx, env):
     h, *a = vx
     if h == "i":
         return env.cls(a[0])()
+    if h == "en":
+        return env.cls("Color")[a[0]]
+    if h == "v" and a[0] in ("inf", "-inf"):
+        return float(a[0])
     if h == "v":
         v = a[0]
         # equal-but-not-identical objects: a dispatcher that compares with `is` must not get away with it
@@ -453,7 +464,7 @@ def vname(vx):
         return a[0] + "()"
     if h == "v":
         return repr(a[0])
-    if h in ("mi", "ms"):
+    if h in ("mi", "ms", "en"):
         return f"{h}({a[0]!r})"
     if h in ("t", "l"):
         return h + "(" + ",".join(vname(x) for x in a) + ")"
@@ -517,6 +528,11 @@ def cls_sat(tx, env, C):
     raise ValueError(("cls_sat on value-dependent / unknown type", tx))
 
 
+def _litvals(a, env):
+    """members of a Literal: plain JSON values, or value expressions (["en", "RED"], ["mi", 1], ["v", "inf"])"""
+    return [value(x, env) if isinstance(x, list) else x for x in a]
+
+
 def _lit(values, v):
     """Literal[v1..vn] on v.  A Literal value matches what is equal to it *and* an instance of its type (the bound
     of a Literal is the type of its values: Literal[True] is about bools, so 1 does not match it, while True - a
@@ -547,7 +563,7 @@ def accepts(tx, env, v):
     if h == "I":
         return _and3(accepts(x, env, v) for x in a)
     if h == "L":
-        return _lit(a, v)
+        return _lit(_litvals(a, env), v)
     if h == "D":
         b = accepts(a[0], env, v)
         if b is not True:
@@ -622,7 +638,7 @@ def bound_of(tx, env):
     """The bound (a tx) of a value-dependent type, as documented."""
     h = tx[0]
     if h == "L":
-        ts = {type(x).__name__ for x in tx[1:]}
+        ts = {type(x).__name__ for x in _litvals(tx[1:], env)}
         return sorted(ts)[0] if len(ts) == 1 else ["U", *sorted(ts)]
     if h == "D":
         return tx[1]
